@@ -522,9 +522,13 @@ V("C02-dict-value-no-decode", "C02", "DictField.to_python decodes keys only", DI
   "                self.key_field.to_python(cfg, key): self.value_field.to_python(cfg, val)  # type: ignore",
   "                self.key_field.to_python(cfg, key): val  # type: ignore",
   expect_rule="agree.container-codec @ DictField.to_python", check=["C02", "C05"])
-V("C02-instance-methods-in-tree", "C02", "to_tree no longer skips instance methods", CORE,
+V("C02-instance-methods-in-tree", "C02", "explicit instance-method skip removed: still unreachable (methods hold no value and are not virtual)", CORE,
   "            if isinstance(field, InstanceMethodFieldMixin):\n                continue\n\n            field_value",
-  "            field_value", expect_rule="tree.no-instance-methods")
+  "            field_value", expect="silent", note="the path-based predecessor of tree.no-instance-methods reported this behaviour-preserving edit")
+V("C02-instance-methods-as-virtual", "C02", "instance methods emitted when virtual output is requested", CORE,
+  "            is_virtual = virtual and isinstance(field, VirtualFieldMixin)",
+  "            is_virtual = virtual and isinstance(field, (VirtualFieldMixin, InstanceMethodFieldMixin))\n            if is_virtual and isinstance(field, InstanceMethodFieldMixin):\n                tree[key] = None\n                continue",
+  expect_rule="tree.no-instance-methods")
 V("C02-virtual-always", "C02", "virtual fields emitted without being asked for", CORE,
   "            is_virtual = virtual and isinstance(field, VirtualFieldMixin)",
   "            is_virtual = isinstance(field, VirtualFieldMixin)", expect_rule="tree.virtual-on-request")
